@@ -137,6 +137,29 @@ def compare_rotations(ctx, cls, text, rng, tier, label, max_rot=None):
     if max_rot and len(ks) > max_rot:
         rng.shuffle(ks)
         ks = sorted(ks[:max_rot])
+    # the same plasmid handed over as a plain SeqRecord that declares itself circular (what Bio.SeqIO returns): verdict and
+    # overhangs at the rotations that put the origin inside the structure (a plain record cannot be rotated, so no target)
+    from Bio.SeqRecord import SeqRecord
+
+    def observe_plain(t):
+        ent = cls(SeqRecord(Seq(t), "r", annotations={"topology": "circular"}))
+        try:
+            return ("valid", str(ent.overhang_start()).upper(), str(ent.overhang_end()).upper()) if ent.is_valid() else ("invalid",)
+        except Exception as e:
+            return ("raised", type(e).__name__)
+
+    base_plain = observe_plain(text)
+    if base_plain[:1] != base[:1]:
+        ctx.violation("plain-circular-record-typed-differently", "%s: a plain SeqRecord declaring topology=circular is %s, the same plasmid as CircularRecord %s" % (
+            cls.__name__, base_plain[0], base[0]), cls=cls.__name__, text=text if n < 700 else text[:700] + "...")
+    for k in ks[:: max(1, len(ks) // 12)]:
+        ctx.count("c02_plain_record_comparisons")
+        got = observe_plain(rot_left(text, k))
+        if got != base_plain:
+            ctx.violation("rotation-changes-validity:plain-seqrecord:%s->%s" % (base_plain[0], got[0]),
+                          "%s on a plain circular SeqRecord of %d nt: rotating left by %d changes the observation from %r to %r" % (cls.__name__, n, k, base_plain, got),
+                          cls=cls.__name__, text=text if n < 700 else text[:700] + "...", k=k)
+            break
     for k in ks:
         for how in ("string", "operator"):
             if how == "string":
